@@ -486,6 +486,9 @@ func init() {
 				}
 				res.Absorb(name, rep)
 				for _, k := range []string{"Finalize/accepted", "Finalize/refused-not-final", "Delete/accepted", "Delete/rejected-final", "Propose/accepted"} {
+					if p < time.Millisecond && (k == "Finalize/refused-not-final" || k == "Delete/accepted") {
+						continue // with a period far below the one-second granularity an output is final at once
+					}
 					res.Require(res.OutcomeCount(name, k) > 0, "%s: outcome %s never occurred", name, k)
 				}
 			}
